@@ -8,8 +8,8 @@
    dialect / template tables the compiler's own flags must agree with. *)
 From Coq Require Import List NArith ZArith Bool.
 From PV Require Import Lib.ListX Model.SqlAst Model.SqlScope Model.SqlScopeX Model.SqlScopeTok Model.DialectFeat
-  Model.Checked Model.RangeArith Model.SelectClauses
-  Proofs.SqlScopeProofs Proofs.SqlScopeXProofs Proofs.SqlScopeTok Proofs.SqlScopeDialect Proofs.SelectClausesProofs Gen.GenDialectFeat.
+  Model.Checked Model.RangeArith Model.SelectClauses Model.TranslateCid
+  Proofs.SqlScopeProofs Proofs.SqlScopeXProofs Proofs.SqlScopeTok Proofs.SqlScopeDialect Proofs.SelectClausesProofs Proofs.TranslateCidProofs Gen.GenDialectFeat.
 Import ListNotations.
 Local Open Scope N_scope.
 
@@ -169,6 +169,38 @@ Example c07_ex_grouped_ok : well_formed_x xstrict strict ex_schema
   (Query false CNil (SSelect DNone ENil (IExpr (ECol None 2) 0 (IExpr (EApp 3 (ECons (ECol None 1) ENil)) 7 INil)) (TTable false 10 10 ENil TNil) ENil (ECons (ECol None 2) ENil) ENil)
      (ECons (ECol None 7) ENil) no_limit) = true.
 Proof. vm_compute. reflexivity. Qed.
+
+(* ------------------------------------------------------------------------------------------ translate_cid: qualified or bare
+   (Model/TranslateCid.v mirrors translate_cid / translate_ident / omit_ident_prefix; compared call by call with the hook
+   verif:translate_cid).  [fr] is the FROM list of the SELECT being assembled (one item per From / Join), the column belongs
+   to the instance known as [a] with relation [r]. *)
+
+(* the reference the function returns resolves in that SELECT, pre- and post-projection *)
+Theorem c07_cid_ref_resolves : forall fr sc a r c, find_alias fr a = Some r -> exposes r c = true ->
+  forall pre x, translate_cid pre (omit_prefix (length fr)) DRelCol (Some a) (CName c) = Ret x -> ref_resolves (fr :: sc) x = true.
+Proof. exact cid_ref_resolves. Qed.
+Print Assumptions c07_cid_ref_resolves.
+
+(* a bare name is chosen only when the FROM list has exactly one item *)
+Theorem c07_cid_bare_only_single : forall ntables pre d inst col q' c',
+  translate_cid pre (omit_prefix ntables) d (Some inst) col = Ret (q', c') -> q' = None -> d = DRelCol -> ntables = 1%nat.
+Proof. exact bare_only_single. Qed.
+Print Assumptions c07_cid_bare_only_single.
+
+(* full statement, FALSE (open finding N15: the relation behind the single FROM item is a CTE that projects `t.*, u.*`, two
+   columns of one name):
+     forall fr sc a r c, find_alias fr a = Some r -> exposes r c = true -> forall pre x,
+       translate_cid pre (omit_prefix (length fr)) DRelCol (Some a) (CName c) = Ret x -> ref_unique (fr :: sc) x = true *)
+Theorem c07_cid_ref_unique_refuted : exists fr sc a r c pre x, find_alias fr a = Some r /\ exposes r c = true /\
+  translate_cid pre (omit_prefix (length fr)) DRelCol (Some a) (CName c) = Ret x /\ ref_unique (fr :: sc) x = false.
+Proof. exists [(11, mkRel [1; 1] false)], [], 11, (mkRel [1; 1] false), 1, true, (None, CName 1). vm_compute. auto. Qed.
+Print Assumptions c07_cid_ref_unique_refuted.
+
+Theorem c07_cid_ref_unique_partial : forall fr sc a r c, find_alias fr a = Some r -> exposes r c = true ->
+  forall pre x, (count_name c (rcols r) <= 1)%nat ->
+  translate_cid pre (omit_prefix (length fr)) DRelCol (Some a) (CName c) = Ret x -> ref_unique (fr :: sc) x = true.
+Proof. exact cid_ref_unique. Qed.
+Print Assumptions c07_cid_ref_unique_partial.
 
 (* ------------------------------------------------------------------------------------------ single statement *)
 
